@@ -77,6 +77,15 @@ func (c *c16Chain) ForceAddAccountBlockTransaction(insertLocker sync.Locker, tra
 	c.events = append(c.events, c16Event{kind: "force-add", height: transaction.Block.Height})
 	return nil
 }
+
+// the non-forced insertion is what gossip uses: a pooled competitor with a better priority refuses the block.  A block
+// cemented by a delivered momentum must not be subject to that (C02: same momentums in, same ledger out, whatever
+// reached the node by gossip before)
+func (c *c16Chain) AddAccountBlockTransaction(insertLocker sync.Locker, transaction *nom.AccountBlockTransaction) error {
+	c.events = append(c.events, c16Event{kind: "add", height: transaction.Block.Height})
+	verifAssert(false, "account blocks cemented by a delivered momentum are force-inserted, never offered to the pool's priority rule")
+	return nil
+}
 func (c *c16Chain) AddMomentumTransaction(insertLocker sync.Locker, transaction *nom.MomentumTransaction) error {
 	m := transaction.Momentum
 	c.events = append(c.events, c16Event{kind: "add-momentum", height: m.Height, hash: m.Hash})
